@@ -180,7 +180,18 @@ impl Remover {
                 } else {
                     let current = acc.len();
                     acc.push((marker, Some(current + (end_cursor - start_cursor) + 1)));
-                    acc.extend(child_markers[start_cursor..end_cursor].to_owned());
+                    // Pair indices of the spliced markers are relative to child_markers.
+                    acc.extend(child_markers[start_cursor..end_cursor].iter().map(
+                        |(range, pair)| {
+                            let pair = match pair {
+                                Some(p) if start_cursor <= *p && *p < end_cursor => {
+                                    Some(*p - start_cursor + current + 1)
+                                }
+                                _ => None,
+                            };
+                            (range.clone(), pair)
+                        },
+                    ));
                     acc.push((end_marker, Some(current)));
                 }
             } else {
